@@ -450,8 +450,12 @@ def run(prop_id, tier, seed, replay_file=None, jobs=None):
             wall_s=round(wall, 2),
             violations=len(violations),
         )
-        os.makedirs(os.path.join(ROOT, 'evidence'), exist_ok=True)
-        with open(os.path.join(ROOT, 'evidence', f'{prop_id}.json'), 'w') as f:
+        # (a development run against a scratch tree - a seeded patch, a
+        # reverted fix - must not pass for evidence about /repo)
+        evdir = 'evidence' if not os.environ.get('PYCEL_REPO_SRC') else \
+            os.path.join('evidence', '.scratch')
+        os.makedirs(os.path.join(ROOT, evdir), exist_ok=True)
+        with open(os.path.join(ROOT, evdir, f'{prop_id}.json'), 'w') as f:
             f.write(jdump(evidence, indent=1))
             f.write('\n')
         if not violations and nontrivial < need:
